@@ -96,6 +96,14 @@ func Start(t *testing.T, id, level string) *Run {
 		}
 	}
 	r.deadline = r.start.Add(time.Duration(budget) * time.Second)
+	// soft memory limit: enumerations that produce garbage at a high rate on 16 cores let the
+	// heap grow to tens of GiB under the default pacing; the limit only makes the collector
+	// work earlier, it never fails an allocation
+	memMB, _ := strconv.Atoi(env("VERIF_MEMLIMIT_MB", ""))
+	if memMB <= 0 {
+		memMB = 6144
+	}
+	debug.SetMemoryLimit(int64(memMB) << 20)
 	// known_findings.json plus per-property files known_findings_<ID>.json (large lists)
 	files := []string{filepath.Join(VerifDir(), "known_findings.json"), filepath.Join(VerifDir(), "known_findings_"+id+".json")}
 	if x := os.Getenv("VERIF_EXTRA_FINDINGS"); x != "" {
